@@ -88,6 +88,14 @@ def initial_status(case):
     return st_
 
 
+def _with_extra(case, IC):
+    """IC is documented as a dict with IC[node] for the nodes of G; a dict made for a larger population (statuses for
+    nodes that are not in G, e.g. G is the giant component) is such a dict."""
+    for k, s_ in enumerate(case.get('ic_extra') or []):
+        IC[('not-in-G', k)] = s_
+    return IC
+
+
 def make_rules(case, budget=None):
     """callbacks for the non-Markovian simulators from case['rule']"""
     rule = case['rule']
@@ -142,6 +150,8 @@ def make_rules(case, budget=None):
 
         def trans(u, v, duration):
             tick()
+            if u == v:
+                return []       # self-loop: the simulator asks the rule about (u, u); no attempt on oneself
             return [d for d in delay[(u, v)] if d < duration]
     return trans, rec
 
@@ -222,7 +232,7 @@ def build(case, full, budget=None, G=None, extra=None):
         return f, [G], kw
     if sim == 'Gillespie_simple_contagion':
         H, J = build_spec_graphs(case, G)
-        IC = initial_status(case)
+        IC = _with_extra(case, initial_status(case))
         return f, [G, H, J, IC, statuses_of(case)], kw
     if sim == 'Gillespie_complex_contagion':
         statuses, rules, nxt = CMODELS[case['cmodel']]
@@ -237,7 +247,7 @@ def build(case, full, budget=None, G=None, extra=None):
 
         def get_influence_set(G_, node, status, parameters):
             return _c15.ball(adj, node, hops)
-        IC = initial_status(case)
+        IC = _with_extra(case, initial_status(case))
         kw['parameters'] = ()
         return f, [G, rate_function, transition_choice, get_influence_set, IC, statuses_of(case)], kw
     raise ValueError(sim)
@@ -275,7 +285,8 @@ def sim_case(draw, sims=SIMS, nmax=25, labels=('int', 'perm', 'str', 'tuple'), f
     kind = KIND[sim]
     directed = sim == 'Gillespie_simple_contagion' and draw(st.booleans())
     small = draw(st.integers(0, 3)) == 0
-    gc = draw(gen.graph_case(1, 4 if small else nmax, labels=labels, weighted=True, directed=directed))
+    gc = draw(gen.graph_case(1, 4 if small else nmax, labels=labels, weighted=True, directed=directed,
+                             selfloops=(KIND[sim] != 'generic')))     # self-loops are handled explicitly by the SIR/SIS simulators
     nodes = gc['nodes']
     n = len(nodes)
     allow_R = sim in HAS_R0 if force_R0 is None else (force_R0 and sim in HAS_R0)
@@ -317,8 +328,12 @@ def sim_case(draw, sims=SIMS, nmax=25, labels=('int', 'perm', 'str', 'tuple'), f
         case['spec'] = draw(st.integers(0, len(SPECS) - 1))
         sts = SPECS[case['spec']][0]
         case['IC'] = [draw(st.sampled_from(sts + ['I'] if 'I' in sts else sts)) for _ in nodes]
+        if draw(st.integers(0, 3)) == 0:
+            case['ic_extra'] = [draw(st.sampled_from(sts)) for _ in range(draw(st.integers(1, 3)))]
     if sim == 'Gillespie_complex_contagion':
         case['cmodel'] = draw(st.integers(0, len(CMODELS) - 1))
         sts = CMODELS[case['cmodel']][0]
         case['IC'] = [draw(st.sampled_from(sts)) for _ in nodes]
+        if draw(st.integers(0, 3)) == 0:
+            case['ic_extra'] = [draw(st.sampled_from(sts)) for _ in range(draw(st.integers(1, 3)))]
     return case
